@@ -13,6 +13,10 @@ protocol (one output line per input line):
    per site: enclosing conditions (bits, `-` = none) `/` value of `when` `/` field bit patterns;
    answer: records of this cycle from the capture process, from the sampler with the packed vector, from
    the sampler with per-site triggers (`site:v,v;…`, `-` = none), and the packed vector.
+`smp c=7 p=13 s=1:1,2;0:5;7:` → `pk=0:1,2;2: ps=0:1,2;2:`
+   one direct `GeneratedEvLogSampler.sample(c, sink)` call on arbitrary reader values: packed vector `p`
+   (`-` = no packed vector, answer `pk=x`) and per site `<trigger>:<field values>`; answer: the records with the
+   packed vector and with per-site triggers.  Used also where bit i of `p` is NOT trigger i.
 `fin` → `n=… stray=0 ord=1 file=[0,0,[-1,200]]|… ld=1 rd=1 wr=1 spk=1 sps=1 sch=1 dec=… disp=…`
    whole-log observations: number of records, records outside the simulated cycles, log in cycle
    order, the saved lines (spaces removed), load∘save = id, reader = decoded log, streamed writer file =
@@ -105,6 +109,15 @@ def parseSiteIn (t : List String) (i : Nat) : Option SiteIn :=
       | _, _, _ => none
     | _ => none
   | none => none
+
+/-- `<trigger value>:<field values>` of one site, as its readers return them -/
+def parseSig (s : String) : Option SiteSig :=
+  match s.splitOn ":" with
+  | [tr, vs] =>
+    match tr.toNat?, allSome ((splitC "," vs).map String.toInt?) with
+    | some t, some vals => some ⟨t, vals⟩
+    | _, _ => none
+  | _ => none
 
 def showInts (l : List Int) : String := ",".intercalate (l.map toString)
 
@@ -239,6 +252,18 @@ def stepLine (s : St) (line : String) : St × String :=
       else (s, "bad-op")
     | none => (s, "bad-op")
   | some "fin" => (s, finLine s)
+  | some "smp" =>
+    match nat? t "c", kv? t "p", kv? t "s" with
+    | some c, some p, some sv =>
+      match allSome ((splitC ";" sv).map parseSig) with
+      | some sigs =>
+        let ps := showEvs (sample c none sigs)
+        let pk := if p == "-" then some "x" else p.toNat?.map fun pv => showEvs (sample c (some pv) sigs)
+        match pk with
+        | some pk => (s, s!"pk={pk} ps={ps}")
+        | none => (s, "bad-op")
+      | none => (s, "bad-op")
+    | _, _, _ => (s, "bad-op")
   | _ => (s, "bad-op")
 
 def main : IO Unit := Proto.run ({} : St) stepLine
